@@ -27,7 +27,7 @@ def parseStmt (ws : List String) : Option Stmt :=
   | ["call", x, h, op, owner, name] => do pure (.call (← x.toNat?) (← h.toNat?) (← parseOp op) owner name)
   | ["coll", v, h, m] => do pure (.coll (← v.toNat?) (← h.toNat?) (if m == "mut" then .mut else .shr))
   | ["enter", s, g, h, op, owner, name] => do pure (.enter (← s.toNat?) (← g.toNat?) (← h.toNat?) (← parseOp op) owner name)
-  | ["exit", r, x] => do pure (.exit (if r == "-" then none else r.toNat?) (← x.toNat?))
+  | ["exit", r] => pure (.exit (if r == "-" then none else r.toNat?))
   | ["use", x] => x.toNat?.map .use
   | ["drop", x] => x.toNat?.map .drop
   | ["slot", o] => o.toNat?.map .slot
